@@ -1534,53 +1534,77 @@ class FlagTypes:
         return out
 
 
-def _bool_leaves(e):
+def _bool_leaves(e, neg=False):
+    """(leaf, negated?) of a boolean expression"""
     if isinstance(e, ast.BoolOp):
         for v in e.values:
-            yield from _bool_leaves(v)
+            yield from _bool_leaves(v, neg)
     elif isinstance(e, ast.UnaryOp) and isinstance(e.op, ast.Not):
-        yield from _bool_leaves(e.operand)
+        yield from _bool_leaves(e.operand, not neg)
     else:
-        yield e
+        yield e, neg
 
 
 def flag_uses(ft, fn):
-    """[(kind, local, flag class, lineno)] kind: 'field' (x.success in a boolean context), 'guarded' (bare x, its flag
-    is read at or after this point), 'holder' (bare x, x is None-initialised: plain None guard), 'bare' (bare x used as
-    the flag)"""
+    """[(kind, local, flag class, lineno)] kind: 'field' (x.success in a boolean context), 'guarded' (bare x as a None
+    guard whose flag is read in the same test, in the guarded body, or after the early exit it guards), 'holder' (bare x,
+    x is None-initialised: plain None guard), 'bare' (bare x used as the flag)"""
     lt = ft.local_types(fn)
     if not lt:
         return []
-    reads = _collections.defaultdict(list)
+
+    def is_read(n, var):
+        return isinstance(n, ast.Attribute) and isinstance(n.value, ast.Name) and n.value.id == var \
+            and n.attr == ft.flag[lt[var][0]]
+
+    def reads_in(nodes, var):
+        return any(is_read(x, var) for nd in nodes for x in ast.walk(nd))
+
+    all_reads = _collections.defaultdict(list)
     for n in ast.walk(fn):
-        if isinstance(n, ast.Attribute) and isinstance(n.value, ast.Name) and n.value.id in lt \
-                and n.attr == ft.flag[lt[n.value.id][0]]:
-            reads[n.value.id].append(n.lineno)
-    ctx = []
+        if isinstance(n, ast.Attribute) and isinstance(n.value, ast.Name) and n.value.id in lt and is_read(n, n.value.id):
+            all_reads[n.value.id].append(n.lineno)
+    sites = []       # (test expr, owning statement or None)
     for n in ast.walk(fn):
         if isinstance(n, (ast.If, ast.While, ast.IfExp, ast.Assert)):
-            ctx.append(n.test)
+            sites.append((n.test, n))
         elif isinstance(n, ast.comprehension):
-            ctx.extend(n.ifs)
-        elif isinstance(n, ast.BoolOp) or (isinstance(n, ast.UnaryOp) and isinstance(n.op, ast.Not)):
-            ctx.append(n)
+            for c in n.ifs:
+                sites.append((c, None))
+    in_tests = {id(x) for t, _ in sites for x in ast.walk(t)}
+    for n in ast.walk(fn):
+        if (isinstance(n, ast.BoolOp) or (isinstance(n, ast.UnaryOp) and isinstance(n.op, ast.Not))) and id(n) not in in_tests:
+            sites.append((n, None))
+            in_tests |= {id(x) for x in ast.walk(n)}
     out, seen = [], set()
-    for e in ctx:
-        for lf in _bool_leaves(e):
+    for test, st in sites:
+        for lf, neg in _bool_leaves(test):
             if id(lf) in seen:
                 continue
             seen.add(id(lf))
-            if isinstance(lf, ast.Attribute) and isinstance(lf.value, ast.Name) and lf.value.id in lt \
-                    and lf.attr == ft.flag[lt[lf.value.id][0]]:
+            if isinstance(lf, ast.Attribute) and isinstance(lf.value, ast.Name) and lf.value.id in lt and is_read(lf, lf.value.id):
                 out.append(('field', lf.value.id, lt[lf.value.id][0], lf.lineno))
-            elif isinstance(lf, ast.Name) and lf.id in lt:
-                cls, nullable, none_init = lt[lf.id]
-                if any(l >= lf.lineno for l in reads[lf.id]):
-                    out.append(('guarded', lf.id, cls, lf.lineno))
-                elif none_init:
-                    out.append(('holder', lf.id, cls, lf.lineno))
-                else:
-                    out.append(('bare', lf.id, cls, lf.lineno))
+                continue
+            if not (isinstance(lf, ast.Name) and lf.id in lt):
+                continue
+            var = lf.id
+            cls, nullable, none_init = lt[var]
+            ok = reads_in([test], var)
+            if not ok and nullable and st is not None:
+                if isinstance(st, ast.IfExp):
+                    ok = reads_in([st.orelse if neg else st.body], var)
+                elif isinstance(st, (ast.If, ast.While)):
+                    taken, other = (st.orelse, st.body) if neg else (st.body, st.orelse)
+                    ok = reads_in(taken, var)
+                    if not ok and other and isinstance(other[-1], (ast.Return, ast.Continue, ast.Break, ast.Raise)):
+                        end = getattr(st, 'end_lineno', st.lineno)
+                        ok = any(l > end for l in all_reads[var])
+            if ok:
+                out.append(('guarded', var, cls, lf.lineno))
+            elif none_init:
+                out.append(('holder', var, cls, lf.lineno))
+            else:
+                out.append(('bare', var, cls, lf.lineno))
     return out
 
 
